@@ -436,12 +436,14 @@ fn ga_response() -> impl Strategy<Value = get_assertion::Response> {
 }
 
 fn gi_response() -> impl Strategy<Value = get_info::Response> {
-    let version = (0u8..3, "FIDO_2_[1-9]|x[a-z]{1,6}").prop_map(|(k, s)| match k {
+    // unknown identifiers are mostly fresh strings, sometimes a known one in another letter case (still unknown: the
+    // identifiers are case-sensitive strings)
+    let version = (0u8..3, prop_oneof![6 => "FIDO_2_[1-9]|x[a-z]{1,6}", 1 => Just("fido_2_0".to_string()), 1 => Just("u2f_v2".to_string()), 1 => Just("Fido_2_0".to_string())]).prop_map(|(k, s)| match k {
         0 => get_info::Version::U2F_V2,
         1 => get_info::Version::FIDO_2_0,
         _ => get_info::Version::Unknown(s),
     });
-    let ext = (0u8..4, "cred[A-Z][a-z]{1,8}").prop_map(|(k, s)| match k {
+    let ext = (0u8..4, prop_oneof![6 => "cred[A-Z][a-z]{1,8}", 1 => Just("PRF".to_string()), 1 => Just("Hmac-Secret".to_string()), 1 => Just("HMAC-SECRET-MC".to_string())]).prop_map(|(k, s)| match k {
         0 => get_info::Extension::HmacSecret,
         1 => get_info::Extension::HmacSecretMakeCredential,
         2 => get_info::Extension::Prf,
